@@ -12,6 +12,7 @@ Specification = `container/list` written out on `List Nat` (`insBefore`, `insAft
 below therefore also says that *all other lists are untouched*.
 -/
 import Golib.Proof.C13DWalk
+import Golib.Proof.C13SList
 
 namespace Golib.C13
 
@@ -138,6 +139,42 @@ theorem c13_dlist_refines_traversal {s : DSt} {A : Nat → List Nat} {l : Nat} (
   have f := front_spec h hl
   refine ⟨f.2.2, f.1, f.2.1, forward_spec h hl fuel hf, backward_spec h hl fuel hf, ?_⟩
   rw [forward_spec h hl fuel hf, backward_spec h hl fuel hf]
+
+/-- `SList`: `SInv s L` — `next` from `head` visits exactly `L` and ends in nil, `tail` is the last
+node reachable from `head`, `len` is the chain length.  The zero value satisfies it with `[]`,
+and the front/back operations preserve it, acting on `L` as a sequence
+(`PushFrontNode` ↦ `e :: L`, `PushBackNode` ↦ `L ++ [e]`, `RemoveFront` ↦ tail, returning the
+head with its `next` cleared; on the empty list `RemoveFront` returns nil and changes nothing). -/
+theorem c13_slist_inv :
+    SInv SSt.zero [] ∧
+    (∀ (s : SSt) (L : List Nat) (e : Nat), SInv s L → e ∉ L → SInv (s.pushFrontNode e) (e :: L)) ∧
+    (∀ (s : SSt) (L : List Nat) (e : Nat), SInv s L → e ∉ L → s.next.get e = none →
+      ∃ s', s.pushBackNode e = some s' ∧ SInv s' (L ++ [e])) ∧
+    (∀ (s : SSt) (L : List Nat), SInv s L →
+      (L = [] → s.removeFront = some (s, none)) ∧
+      (∀ x xs, L = x :: xs → ∃ s', s.removeFront = some (s', some x) ∧ SInv s' xs ∧
+        s'.next.get x = none)) := by
+  refine ⟨sinv_zero, fun s L e h he => pushFrontNode_sinv e h he, fun s L e h he hn => ?_,
+    fun s L h => ⟨(removeFront_sinv h).1, fun x xs hL => ?_⟩⟩
+  · obtain ⟨s', r1, r2, _⟩ := pushBackNode_sinv e h he hn; exact ⟨s', r1, r2⟩
+  · obtain ⟨s', r1, r2, r3, _⟩ := (removeFront_sinv h).2 x xs hL; exact ⟨s', r1, r2, r3⟩
+
+/-- `Get(i)` returns the `i`-th node for `0 ≤ i < Len()` and nil for every other index
+(never panics); `Front`, `Back`, `Len` are `head`, `tail`, `len` of the invariant.
+Partial: the full `c13_slist_refines` also states, for `Remove(i)` (`L.eraseIdx i`, head/tail
+fix-up, out-of-range ↦ nil/no-op), `InsertNodeAt(i, e)` (clamped: `i ≤ 0` ↦ front, `i ≥ len` ↦
+back, else `L.insertIdx i e`) and `Swap(i, j)` (values of positions `i`, `j` exchanged, no-op
+out of range or `i = j`), that they preserve `SInv` and act on `L` as said.  These three are
+not proved yet; they are covered on every run by the differential check of the real code
+against the Lean model and against the sequence oracle (all indices -1 … len+1). -/
+theorem c13_slist_refines_partial (s : SSt) (L : List Nat) (h : SInv s L) (i : Int) :
+    s.getAt i = some (if 0 ≤ i ∧ i < L.length then L[i.toNat]? else none) ∧
+    s.head = L.head? ∧ s.tail = L.getLast? ∧ s.len = L.length := by
+  refine ⟨getAt_sinv h i, ?_, h.tail, h.len⟩
+  have := h.chain
+  cases L with
+  | nil => simpa [ChainTo] using this
+  | cons x xs => simp only [ChainTo] at this; simp [this.1]
 
 /-- Non-vacuity: starting from two zero-value lists, `PushBack 7` on list 0, `PushFront 8` on
 list 0 and `PushBack 9` on list 1 reach (by the theorems above) a state satisfying the invariant
